@@ -7,6 +7,9 @@ SPEC = {
         # wait(true) parks with zero handlers fails here after one 2 s observation.
         {"name": "term-enum", "pkg": P, "kind": "plain", "run": "^TestVerifC19TermEnum$",
          "quick": {"shards": 2, "timeout": 240}, "thorough": {"shards": 12, "timeout": 900}},
+        # bursts: up to 1000 start/finish reports parked on the channel when a wait call starts
+        {"name": "term-burst", "pkg": P, "kind": "plain", "run": "^TestVerifC19TermBurst$",
+         "quick": {"shards": 2, "timeout": 240}, "thorough": {"shards": 8, "timeout": 900}},
         {"name": "term-machine", "pkg": P, "kind": "rapid", "run": "^TestVerifC19TermMachine$",
          "quick": {"checks": 3000, "shards": 1, "timeout": 240, "shrinktime": "6s"},
          "thorough": {"checks": 15000, "shards": 16, "timeout": 900, "shrinktime": "10s"}},
